@@ -325,7 +325,19 @@ def handle : Handler := fun op inp impl =>
         | none => !r.hasCert
         | some c => r.hasCert && ((c == "operator") == (opCert && r.handedFp == opFp)))
     let cliOK := !isCli || int (field impl "exitCode") == 0 || int (field impl "exitCode") == 1
-    let holds := once && hdrOK && addrOK && boundOK && stoppedOK && retOK && returned && grpcOK && markOK && portOK && cliOK && certOK
+    -- (9) the instance of a permutation is its CONFIG CASE's (model: `cfgInst`; `instance_is_config_case`),
+    -- whatever the suite's request template carries in the fields the runner owns: TLS as the full
+    -- name's `TLS:…` component says, client certificates when TLS and the suite relies on them
+    let suitesIn : List (List String × Bool) := (arr (field inp "suites")).map (fun s => (split (str (field s "name")), bool (field s "reliesOnTlsClientCerts")))
+    let cfgInstOf (p : Perm) : Option Inst :=
+      match nameTLS p.name with
+      | none => none
+      | some b => match ((suitesIn.filter (fun s => s.1.isPrefixOf p.name)).map (·.2)).eraseDups with
+        | [c] => some (cfgInst ⟨p.inst.proto, p.inst.ver, b, c⟩)
+        | _ => none
+    let tmplBad := perms.filter (fun p => match cfgInstOf p.1 with | some i => p.1.inst != i | none => false)
+    let tmplOK := tmplBad.isEmpty
+    let holds := once && hdrOK && addrOK && boundOK && stoppedOK && retOK && returned && grpcOK && markOK && portOK && cliOK && certOK && tmplOK
     -- the model's plan: batches per instance
     let insts := (perms.map (·.1.inst)).eraseDups
     let pl := if v == .ok then plan (perms.map (·.1)) run skip insts else []
@@ -352,7 +364,7 @@ def handle : Handler := fun op inp impl =>
     let dispAgree := maxS == 0 || (returned == (final.disp == .returned && pipeOK) && aliveAtRet.length == aliveCount final.threads)
     { agree := certAgree && namesAgree && (if serverOK && !broke then sentNames == planNames else true) && batchesAgree && dispAgree && (selected.map (·.name) |>.map ("/".intercalate ·) |> sortStrings) == wantNames,
       holds := holds, nontrivial := reqs.length > 1 && wantNames.length < names.length || srvs.length > 1,
-      cls := (if str (field inp "layout") != "" then "files-" ++ str (field inp "layout") ++ ":" else "") ++ (if isCli then "cli:" ++ str (field cli "maxServers") ++ (if withPort then ":port:" else ":") else "") ++ mode ++ ":" ++ beh ++ (if str (field inp "clientStopHow") != "" then ":client-" ++ str (field inp "clientStopHow") else ""),
+      cls := (if (arr (field inp "suites")).any (fun s => nat (field s "tmpl") != 0) then "tmpl:" ++ (if bool (field inp "tls") then "tls:" else "plain:") else "") ++ (if str (field inp "layout") != "" then "files-" ++ str (field inp "layout") ++ ":" else "") ++ (if isCli then "cli:" ++ str (field cli "maxServers") ++ (if withPort then ":port:" else ":") else "") ++ mode ++ ":" ++ beh ++ (if str (field inp "clientStopHow") != "" then ":client-" ++ str (field inp "clientStopHow") else ""),
       model := Json.mkObj [("selected", wantNames.length), ("batches", pl.length), ("maxAlive", alive)],
       why := if holds then "" else
         (if !once then s!"selected permutations not handed out exactly once: sent {sentNames.length} want {wantNames.length}; " else "") ++
@@ -371,6 +383,7 @@ def handle : Handler := fun op inp impl =>
           s!"the client was not pointed at a matching server: a request carries a certificate that is not the one its server presents (or carries one / none against its instance's TLS setting): " ++
           s!"{(bad.take 2).map (fun r => (r.name, "handed " ++ r.handedFp, "presented " ++ r.presentedFp))}{if bad.isEmpty then " (the recording server of the request's instance presents another certificate than the one handed over)" else ""}" ++
           s!"{if opCert then " [operator-supplied key pair " ++ opFp ++ "]" else ""}; " else "") ++
+        (if !tmplOK then s!"a permutation is grouped under a server instance that is not its config case's (TLS as its name says, client certificates when TLS and the suite relies on them) — the suite's request template must not steer the grouping: {(tmplBad.take 3).map (fun p => ("/".intercalate p.1.name, "instance tls/certs", p.1.inst.tls, p.1.inst.certs))}; " else "") ++
         (if !cliOK then s!"the command ended with status {int (field impl "exitCode")}: {str (field impl "stderr")}; " else "") ++
         (if !markOK then s!"gRPC-peer permutation handed out under a name that is not its marked name (marker immediately before the test's own name at the end of the full name): {(reqs.filter (fun r => marked r.name && !mMarked.any (fun q => "/".intercalate q.1 == r.name))).map (·.name) |>.take 3}; " else "") }
   | _ => bad ("unknown op " ++ op)
